@@ -314,18 +314,33 @@ func runFiles(op map[string]any) (any, error) {
 	if err != nil {
 		return nil, err
 	}
-	if roots, ok := op["roots"].([]any); ok {
-		for _, r := range roots {
-			if err := p.SetRoot(r.(string)); err != nil {
-				return map[string]any{"stage": "root", "err": errClass(err), "msg": err.Error()}, nil
+	skip, _ := op["skipParent"].(bool)
+	match, _ := op["fileMatch"].(bool)
+	// actions: SetRoot calls and inputs in the order given ("roots" then "inputs" is the common special case)
+	actions := []any{}
+	if as, ok := op["actions"].([]any); ok {
+		actions = as
+	} else {
+		if roots, ok := op["roots"].([]any); ok {
+			for _, r := range roots {
+				actions = append(actions, map[string]any{"root": r})
+			}
+		}
+		if inputs, ok := op["inputs"].([]any); ok {
+			for _, in := range inputs {
+				actions = append(actions, map[string]any{"input": in})
 			}
 		}
 	}
-	skip, _ := op["skipParent"].(bool)
-	match, _ := op["fileMatch"].(bool)
-	inputs, _ := op["inputs"].([]any)
-	for _, in := range inputs {
-		path := in.(string)
+	for _, a := range actions {
+		act, _ := a.(map[string]any)
+		if r, ok := act["root"].(string); ok {
+			if err := p.SetRoot(r); err != nil {
+				return map[string]any{"stage": "root", "err": errClass(err), "msg": err.Error()}, nil
+			}
+			continue
+		}
+		path, _ := act["input"].(string)
 		if match {
 			real, _, err := bkl.FileMatch(path)
 			if err != nil {
